@@ -107,4 +107,348 @@ Proof.
       apply EvB_app_ret. eapply EvB_cons; [exact Hread | exact Hb'].
 Qed.
 
+
+(* ---------------------------------------------------------------- the offset indices, under INTEGER *)
+Variable idx : ident.
+Variable offs : list ident.
+Hypothesis Hidx : ok_id X idx = false.
+Hypothesis Hoffs : forall y, In y offs -> ok_id X y = false.
+Hypothesis Hnd : NoDup (idx :: offs).
+Hypothesis Hnt : ~ In t (idx :: offs).
+
+Definition off_defs (j0 : nat) (os : list ident) : block :=
+  map (fun jo => SAssign (PVar (snd jo)) (EOp2 OAdd (EVar idx) (int_lit (Z.of_nat (fst jo)))))
+      (combine (seq j0 (List.length os)) os).
+
+(* index arithmetic under INTEGER is exact, whatever the ambient context *)
+Lemma off_defs_run : forall os j0 s' mu base,
+  NoDup os -> ~ In idx os ->
+  env_get s' idx = Some (VNum (num_of_Z (Z.of_nat base))) ->
+  exists s2', EvB N P' s' mu CInteger (off_defs j0 os) (ONormal s2', mu) /\
+    (forall c y, nth_error os c = Some y -> env_get s2' y = Some (VNum (num_of_Z (Z.of_nat (base + (j0 + c)))))) /\
+    (forall y, ~ In y os -> env_get s2' y = env_get s' y).
+Proof.
+  induction os as [|o os IH]; intros j0 s' mu base Hnd' Hni Hi.
+  - exists s'. split; [apply EvB_nil|]. split; [intros c y H; destruct c; discriminate | auto].
+  - inversion Hnd' as [|? ? Hno Hnd2]; subst.
+    set (s1' := env_set s' o (VNum (num_of_Z (Z.of_nat (base + j0))))).
+    assert (Hi1 : env_get s1' idx = Some (VNum (num_of_Z (Z.of_nat base)))).
+    { unfold s1'. rewrite env_get_set_other; [exact Hi|]. intro; subst. apply Hni. left. reflexivity. }
+    destruct (IH (S j0) s1' mu base Hnd2 (fun H => Hni (or_intror H)) Hi1) as (s2' & He & Hv & Hk).
+    exists s2'. split; [|split].
+    + unfold off_defs. cbn [List.length seq combine map fst snd]. eapply EvB_cons; [|exact He].
+      apply EvS_assign_var. eapply EvE_op2.
+      * apply EvE_var. exact Hi.
+      * apply EvE_int.
+      * rewrite (ie_add N HN) by lia. rewrite <- Nat2Z.inj_add. reflexivity.
+    + intros c y Hy. destruct c as [|c]; cbn [nth_error] in Hy.
+      * inversion Hy; subst y. rewrite (Hk o Hno). unfold s1'. rewrite env_get_set_same. rewrite Nat.add_0_r. reflexivity.
+      * rewrite (Hv c y Hy). do 4 f_equal. lia.
+    + intros y Hy. rewrite (Hk y (fun H => Hy (or_intror H))). unfold s1'.
+      apply env_get_set_other. intro; subst. apply Hy. left. reflexivity.
+Qed.
+
+Definition main_body : block :=
+  (match off_defs 1 offs with [] => [] | d => [integer_ctx d] end) ++ copies (idx :: offs).
+
+Lemma main_body_run_defs : forall s' mu base,
+  env_get s' idx = Some (VNum (num_of_Z (Z.of_nat base))) ->
+  exists s2', EvB N P' s' mu C (match off_defs 1 offs with [] => [] | d => [integer_ctx d] end) (ONormal s2', mu) /\
+    idx_vals s2' (idx :: offs) base /\ (forall y, ~ In y offs -> env_get s2' y = env_get s' y).
+Proof.
+  intros s' mu base Hi. inversion Hnd as [|? ? Hni Hnd2]; subst.
+  destruct (off_defs_run offs 1 s' mu base Hnd2 Hni Hi) as (s2' & He & Hv & Hk).
+  exists s2'. split; [|split; [|exact Hk]].
+  - destruct (off_defs 1 offs) as [|d ds] eqn:Ed.
+    + (* no offsets: nothing is executed, and the environment is unchanged *)
+      destruct He as [M0 He]. specialize (He (S M0) ltac:(lia)). rewrite exec_block_S in He. cbn in He.
+      inversion He; subst. apply EvB_nil.
+    + eapply EvB_cons; [|apply EvB_nil]. unfold integer_ctx. eapply EvS_context; [apply EvE_ctxval | exact He].
+  - intros c y Hy. destruct c as [|c]; cbn [nth_error] in Hy.
+    + inversion Hy; subst y. rewrite (Hk idx Hni). rewrite Nat.add_0_r. exact Hi.
+    + rewrite (Hv c y Hy). do 4 f_equal.
+Qed.
+
+(* ---------------------------------------------------------------- the chunked loop *)
+(* the cell of the range list: q start indices a, a+k, ..., a+(q-1)k *)
+Definition range_cell (a k q : nat) : list value :=
+  map (fun j => VNum (num_of_Z (Z.of_nat (a + j * k)))) (seq 0 q).
+
+Lemma range_cell_nth : forall a k q j, (j < q)%nat ->
+  nth_error (range_cell a k q) j = Some (VNum (num_of_Z (Z.of_nat (a + j * k)))).
+Proof.
+  intros a k0 q j H. unfold range_cell. rewrite nth_error_map.
+  assert (E : nth_error (seq 0 q) j = Some j).
+  { rewrite (nth_error_nth' _ O) by (rewrite seq_length; lia). rewrite seq_nth by lia. reflexivity. }
+  rewrite E. reflexivity.
+Qed.
+
+Lemma range_cell_none : forall a k q, nth_error (range_cell a k q) q = None.
+Proof. intros. apply nth_error_None. unfold range_cell. rewrite map_length, seq_length. lia. Qed.
+
+Variable k : nat.
+Hypothesis Hk : List.length (idx :: offs) = k.
+
+Lemma shape_length : forall mu mu1, shape mu1 = shape mu -> List.length mu1 = List.length mu.
+Proof. unfold shape. intros mu mu1 H. apply (f_equal (@List.length nat)) in H. rewrite !map_length in H. exact H. Qed.
+
+Lemma chunks_sim : forall rem j a q s s' mu g glr n o mu_f vs,
+  (j + rem = q)%nat ->
+  nth_error g glr = Some (range_cell a k q) ->
+  env_get s' t = Some (VList l) -> agree X s s' ->
+  store_get mu l = Some vs -> (a + q * k <= List.length vs)%nat ->
+  for_loop N P n s mu C p l (a + j * k) body = ROk (o, mu_f) ->
+  (exists s2 s2' mu2,
+      EvF N P' s' (mu ++ g) C (PVar idx) (List.length mu + glr)%nat j main_body (ONormal s2', mu2 ++ g) /\
+      agree X s2 s2' /\ (forall y, ok_id X y = false -> ~ In y (idx :: offs) -> env_get s2' y = env_get s' y) /\
+      shape mu2 = shape mu /\ for_loop N P n s2 mu2 C p l (a + q * k) body = ROk (o, mu_f))
+  \/ (exists v, o = OReturn v /\
+        EvF N P' s' (mu ++ g) C (PVar idx) (List.length mu + glr)%nat j main_body (OReturn v, mu_f ++ g)).
+Proof.
+  induction rem as [|rem IH]; intros j a q s s' mu g glr n o mu_f vs Hq Hcell Htv Ha Hg Hlen Hfor.
+  - assert (j = q) by lia. subst j.
+    left. exists s, s', mu. split; [|split; [exact Ha|split; [auto|split; [reflexivity|exact Hfor]]]].
+    eapply EvF_done.
+    + unfold store_get. rewrite nth_error_app2 by lia. rewrite Nat.add_comm, Nat.add_sub. exact Hcell.
+    + apply range_cell_none.
+  - assert (Hjq : (j < q)%nat) by lia.
+    assert (Hcellg : store_get (mu ++ g) (List.length mu + glr)%nat = Some (range_cell a k q)).
+    { unfold store_get. rewrite nth_error_app2 by lia. rewrite Nat.add_comm, Nat.add_sub. exact Hcell. }
+    assert (Hnit : idx <> t) by (intro E; apply Hnt; left; exact E).
+    assert (Hoffs_t : ~ In t offs) by (intro; apply Hnt; right; assumption).
+    (* the loop counter is bound to the start index of the chunk *)
+    set (si' := env_set s' idx (VNum (num_of_Z (Z.of_nat (a + j * k))))).
+    assert (Hsi_idx : env_get si' idx = Some (VNum (num_of_Z (Z.of_nat (a + j * k))))) by (unfold si'; apply env_get_set_same).
+    destruct (main_body_run_defs si' (mu ++ g) (a + j * k) Hsi_idx) as (sd' & Hdefs & Hvals & Hkd).
+    assert (Had : agree X s sd').
+    { intros y Hy. rewrite Hkd.
+      - unfold si'. rewrite env_get_set_other; [apply Ha, Hy|]. intro; subst. congruence.
+      - intro Hin. apply Hoffs in Hin. congruence. }
+    assert (Htd : env_get sd' t = Some (VList l)).
+    { rewrite (Hkd t Hoffs_t). unfold si'. rewrite env_get_set_other; auto. }
+    assert (Hcs : forall x, In x (idx :: offs) -> ok_id X x = false).
+    { intros x [<-|Hx]; [exact Hidx | apply Hoffs, Hx]. }
+    assert (Hlen1 : (a + j * k + List.length (idx :: offs) <= List.length vs)%nat) by (rewrite Hk; nia).
+    destruct (copies_sim (idx :: offs) (a + j * k) s sd' mu g n o mu_f vs Hcs Hvals Htd Had Hg Hlen1 Hfor)
+      as [(s3 & s3' & mu3 & He & Ha3 & Hk3 & Hs3 & Hf3) | (v & -> & He)].
+    + rewrite Hk in Hf3.
+      destruct (shape_get _ _ _ _ Hs3 Hg) as (vs3 & Hg3 & Hl3).
+      assert (Ht3 : env_get s3' t = Some (VList l)) by (rewrite (Hk3 t Ht); exact Htd).
+      assert (Hf3' : for_loop N P n s3 mu3 C p l (a + S j * k) body = ROk (o, mu_f)).
+      { replace (a + S j * k)%nat with (a + j * k + k)%nat by lia. exact Hf3. }
+      destruct (IH (S j) a q s3 s3' mu3 g glr n o mu_f vs3 ltac:(lia) Hcell Ht3 Ha3 Hg3 ltac:(lia) Hf3')
+        as [(s4 & s4' & mu4 & Hf & Ha4 & Hk4 & Hs4 & Hf4) | (v & -> & Hf)].
+      * left. exists s4, s4', mu4. split; [|split; [exact Ha4|split; [|split; [congruence|exact Hf4]]]].
+        -- eapply EvF_step; [exact Hcellg | apply range_cell_nth; exact Hjq | reflexivity | |].
+           ++ unfold main_body. eapply EvB_app; [exact Hdefs | exact He].
+           ++ rewrite <- (shape_length _ _ Hs3). exact Hf.
+        -- intros y Hy Hny. rewrite (Hk4 y Hy Hny), (Hk3 y Hy), Hkd.
+           ++ unfold si'. apply env_get_set_other. intro; subst. apply Hny. left. reflexivity.
+           ++ intro Hin. apply Hny. right. exact Hin.
+      * right. exists v. split; [reflexivity|].
+        eapply EvF_step; [exact Hcellg | apply range_cell_nth; exact Hjq | reflexivity | |].
+        -- unfold main_body. eapply EvB_app; [exact Hdefs | exact He].
+        -- rewrite <- (shape_length _ _ Hs3). exact Hf.
+    + right. exists v. split; [reflexivity|].
+      eapply EvF_step_ret; [exact Hcellg | apply range_cell_nth; exact Hjq | reflexivity |].
+      unfold main_body. eapply EvB_app; [exact Hdefs | exact He].
+Qed.
+
 End Loop.
+
+(* ---------------------------------------------------------------- range lists *)
+Lemma range_list_cell : forall a k q, (1 <= k)%nat ->
+  range_list (Z.of_nat a) (Z.of_nat (a + q * k)) (Z.of_nat k) = ROk (range_cell a k q).
+Proof.
+  intros a k q Hk. unfold range_list, range_cell.
+  destruct (Z.eqb_spec (Z.of_nat k) 0); [lia|]. f_equal.
+  assert (Hc : Z.to_nat (range_count (Z.of_nat a) (Z.of_nat (a + q * k)) (Z.of_nat k)) = q).
+  { unfold range_count. destruct (Z.gtb_spec (Z.of_nat k) 0); [|lia].
+    destruct (Z.ltb_spec (Z.of_nat a) (Z.of_nat (a + q * k))).
+    - replace (Z.of_nat (a + q * k) - Z.of_nat a + Z.of_nat k - 1)%Z
+        with (Z.of_nat q * Z.of_nat k + (Z.of_nat k - 1))%Z by lia.
+      rewrite Z.div_add_l by lia. rewrite Z.div_small by lia. lia.
+    - destruct q; [reflexivity|]. nia. }
+  rewrite Hc. apply map_ext. intro j. do 2 f_equal. lia.
+Qed.
+
+(* ---------------------------------------------------------------- PEEL *)
+Section Peel.
+Variable N : numops.
+Hypothesis HN : int_exact N.
+Variables P P' : program.
+Variable X : list ident.
+Variables t nn m r idx : ident.
+Variable offs : list ident.
+Variable p : pat.
+Variable it : expr.
+Variables body rest : block.
+Hypothesis Hnames : forall y, In y (t :: nn :: m :: r :: idx :: offs) -> ok_id X y = false.
+Hypothesis Hnd : NoDup (t :: nn :: m :: r :: idx :: offs).
+Hypothesis Hp : ok_pat X p = true.
+Hypothesis Hit : ok_expr X it = true.
+Hypothesis Hbody : ok_block X body = true.
+Hypothesis Hrest : ok_block X rest = true.
+
+Let k := List.length (idx :: offs).
+
+(* fu_build_peel, length not statically known *)
+Definition peel_block : block :=
+  [SAssign (PVar t) it;
+   integer_ctx [SAssign (PVar nn) (ELen (EVar t));
+                SAssign (PVar m) (EOp2 OSub (EVar nn) (EOp2 OFmod (EVar nn) (int_lit (Z.of_nat k))))];
+   SFor (PVar idx) (ERange3 (int_lit 0) (EVar m) (int_lit (Z.of_nat k))) (main_body t p body idx offs);
+   SFor (PVar r) (ERange3 (EVar m) (EVar nn) (int_lit 1)) (SAssign p (ERef (EVar t) (EVar r)) :: body)].
+
+Definition out_rel (o o' : outcome) : Prop :=
+  match o, o' with
+  | ONormal a, ONormal b => agree X a b
+  | OReturn v, OReturn v' => v = v'
+  | _, _ => False
+  end.
+
+Lemma orel_out : forall s' o o', orel X s' o o' -> out_rel o o'.
+Proof. intros s' o o' H. destruct o, o'; cbn in *; try contradiction; tauto. Qed.
+
+Theorem peel_block_sim : forall n s s' mu g0 C o mu_f,
+  agree X s s' ->
+  exec_block N P n s mu C (SFor p it body :: rest) = ROk (o, mu_f) ->
+  exists o' g, EvB N P' s' (mu ++ g0) C (peel_block ++ rest) (o', mu_f ++ g) /\ out_rel o o'.
+Proof.
+  intros n s s' mu g0 C o mu_f Ha H.
+  assert (Hk1 : (1 <= k)%nat) by (unfold k; cbn; lia).
+  (* names *)
+  assert (Ht : ok_id X t = false) by (apply Hnames; cbn; auto).
+  assert (Hnn : ok_id X nn = false) by (apply Hnames; cbn; auto).
+  assert (Hm : ok_id X m = false) by (apply Hnames; cbn; auto).
+  assert (Hr : ok_id X r = false) by (apply Hnames; cbn; auto 10).
+  assert (Hidx : ok_id X idx = false) by (apply Hnames; cbn; auto 10).
+  assert (Hoffs : forall y, In y offs -> ok_id X y = false) by (intros; apply Hnames; cbn; auto 10).
+  inversion Hnd as [|? ? Ht_ni Hnd1]; subst. inversion Hnd1 as [|? ? Hnn_ni Hnd2]; subst.
+  inversion Hnd2 as [|? ? Hm_ni Hnd3]; subst. inversion Hnd3 as [|? ? Hr_ni Hnd4]; subst.
+  (* the original run *)
+  destruct n as [|n]; [discriminate|]. rewrite exec_block_S in H. unfold exec_block_body in H.
+  destruct (exec N P n s mu C (SFor p it body)) as [[o1 mu1]| |] eqn:Efor; cbn [rbind] in H; try discriminate.
+  destruct n as [|n]; [discriminate|]. rewrite exec_S in Efor. unfold exec_body in Efor.
+  destruct (eval N P n s mu C it) as [[vi mui]| |] eqn:Eit; cbn [rbind] in Efor; try discriminate.
+  destruct (frame_eval X N P P' n it s s' mu g0 C vi mui Hit Ha Eit) as [-> Eit'].
+  destruct (as_list mu vi) as [[l vs]| |] eqn:El; cbn [rbind] in Efor; try discriminate.
+  destruct (as_list_loc _ _ _ _ El) as [-> Hg].
+  set (L := List.length vs). set (q := (L / k)%nat).
+  assert (HqL : (q * k <= L)%nat) by (unfold q; pose proof (Nat.mul_div_le L k ltac:(lia)); lia).
+  assert (Hmod : (Z.of_nat L - Z.of_nat L mod Z.of_nat k = Z.of_nat (q * k))%Z).
+  { unfold q. rewrite Nat2Z.inj_mul, Nat2Z.inj_div. pose proof (Z.div_mod (Z.of_nat L) (Z.of_nat k) ltac:(lia)). lia. }
+  (* t = it *)
+  set (s1' := env_set s' t (VList l)).
+  assert (E1 : EvS N P' s' (mu ++ g0) C (SAssign (PVar t) it) (ONormal s1', mu ++ g0)).
+  { apply EvS_assign_var. eapply EvE_of. exact Eit'. }
+  (* with INTEGER: nn = len(t); m = nn - fmod(nn, k) *)
+  set (s2' := env_set s1' nn (VNum (num_of_Z (Z.of_nat L)))).
+  set (s3' := env_set s2' m (VNum (num_of_Z (Z.of_nat (q * k))))).
+  assert (Hs1t : env_get s1' t = Some (VList l)) by (unfold s1'; apply env_get_set_same).
+  assert (E2 : EvS N P' s1' (mu ++ g0) C
+                 (integer_ctx [SAssign (PVar nn) (ELen (EVar t));
+                               SAssign (PVar m) (EOp2 OSub (EVar nn) (EOp2 OFmod (EVar nn) (int_lit (Z.of_nat k))))])
+                 (ONormal s3', mu ++ g0)).
+  { unfold integer_ctx. eapply EvS_context; [apply EvE_ctxval|].
+    eapply EvB_cons.
+    - apply EvS_assign_var. eapply EvE_len; [apply EvE_var; exact Hs1t|].
+      cbn [as_list]. rewrite (store_get_app _ g0 _ _ Hg). reflexivity.
+    - eapply EvB_cons; [|apply EvB_nil].
+      assert (Hn2 : env_get s2' nn = Some (VNum (num_of_Z (Z.of_nat L)))) by (unfold s2'; apply env_get_set_same).
+      apply EvS_assign_var. eapply EvE_op2.
+      + apply EvE_var. exact Hn2.
+      + eapply EvE_op2; [apply EvE_var; exact Hn2 | apply EvE_int |]. apply (ie_fmod N HN); lia.
+      + rewrite <- Hmod. apply (ie_sub N HN). pose proof (Z.mod_pos_bound (Z.of_nat L) (Z.of_nat k) ltac:(lia)).
+        pose proof (Z.mod_le (Z.of_nat L) (Z.of_nat k) ltac:(lia) ltac:(lia)). lia. }
+  assert (Hs3t : env_get s3' t = Some (VList l)).
+  { unfold s3', s2'. rewrite !env_get_set_other; auto; intro; subst; apply Ht_ni; cbn; auto. }
+  assert (Hs3n : env_get s3' nn = Some (VNum (num_of_Z (Z.of_nat L)))).
+  { unfold s3'. rewrite env_get_set_other; [unfold s2'; apply env_get_set_same|]. intro; subst. apply Hnn_ni. cbn; auto. }
+  assert (Hs3m : env_get s3' m = Some (VNum (num_of_Z (Z.of_nat (q * k))))) by (unfold s3'; apply env_get_set_same).
+  assert (Ha3 : agree X s s3').
+  { intros y Hy. unfold s3', s2', s1'. rewrite !env_get_set_other; [apply Ha, Hy| | |]; intro; subst; congruence. }
+  (* the main loop *)
+  set (cell1 := range_cell 0 k q). set (g1 := g0 ++ [cell1]).
+  assert (Hnt1 : ~ In t (idx :: offs)) by (intro Hin; apply Ht_ni; cbn; cbn in Hin; tauto).
+  assert (Hc1 : nth_error g1 (List.length g0) = Some (range_cell 0 k q)).
+  { unfold g1. rewrite nth_error_app2 by lia. rewrite Nat.sub_diag. reflexivity. }
+  assert (Hlen_main : (0 + q * k <= List.length vs)%nat) by (fold L; lia).
+  assert (Hmain := chunks_sim N HN P P' X t p body C l Ht Hp Hbody idx offs Hidx Hoffs Hnd4 Hnt1 k eq_refl
+                     q 0%nat 0%nat q s s3' mu g1 (List.length g0) n o1 mu1 vs eq_refl Hc1
+                     Hs3t Ha3 Hg Hlen_main Efor).
+  assert (Erange1 : EvE N P' s3' (mu ++ g0) C (ERange3 (int_lit 0) (EVar m) (int_lit (Z.of_nat k)))
+                      (VList (List.length (mu ++ g0)), (mu ++ g0) ++ [cell1])).
+  { eapply EvE_range3; [apply (EvE_int N P' _ _ _ 0) | apply EvE_var; exact Hs3m | apply EvE_int |].
+    apply (range_list_cell 0 k q Hk1). }
+  assert (Hlen0 : List.length (mu ++ g0) = (List.length mu + List.length g0)%nat) by apply app_length.
+  assert (Hst1 : (mu ++ g0) ++ [cell1] = mu ++ g1) by (unfold g1; rewrite app_assoc; reflexivity).
+  assert (Hal1 : as_list ((mu ++ g0) ++ [cell1]) (VList (List.length (mu ++ g0))) = ROk (List.length (mu ++ g0), cell1)).
+  { cbn [as_list]. unfold store_get. rewrite nth_error_app2 by lia. rewrite Nat.sub_diag. reflexivity. }
+  destruct Hmain as [(s4 & s4' & mu4 & Hf4 & Ha4 & Hk4 & Hs4 & Hrem4) | (v & -> & Hf4)].
+  2:{ (* an early return inside the unrolled copies *)
+      inversion H; subst. exists (OReturn v), g1. split; [|reflexivity].
+      apply EvB_app_ret. eapply EvB_cons; [exact E1|]. eapply EvB_cons; [exact E2|].
+      apply EvB_cons_ret. eapply EvS_for; [exact Erange1 | exact Hal1 |].
+      rewrite Hst1, Hlen0. exact Hf4. }
+  (* the residual loop *)
+  destruct (shape_get _ _ _ _ Hs4 Hg) as (vs4 & Hg4 & Hl4).
+  assert (Hs4t : env_get s4' t = Some (VList l)) by (rewrite Hk4; auto).
+  assert (Hs4n : env_get s4' nn = Some (VNum (num_of_Z (Z.of_nat L)))).
+  { rewrite Hk4; auto. intro Hin. apply Hnn_ni. cbn; cbn in Hin; tauto. }
+  assert (Hs4m : env_get s4' m = Some (VNum (num_of_Z (Z.of_nat (q * k))))).
+  { rewrite Hk4; auto. intro Hin. apply Hm_ni. cbn; cbn in Hin; tauto. }
+  set (q2 := (L - q * k)%nat). set (cell2 := range_cell (q * k) 1 q2). set (g2 := g1 ++ [cell2]).
+  assert (Hnt2 : ~ In t [r]) by (intros [E|[]]; subst; apply Ht_ni; cbn; auto).
+  assert (Hc2 : nth_error g2 (List.length g1) = Some (range_cell (q * k) 1 q2)).
+  { unfold g2. rewrite nth_error_app2 by lia. rewrite Nat.sub_diag. reflexivity. }
+  assert (Hlen_res : (q * k + q2 * 1 <= List.length vs4)%nat) by (rewrite Hl4; fold L; unfold q2; lia).
+  assert (Hrem4' : for_loop N P n s4 mu4 C p l (q * k + 0 * 1) body = ROk (o1, mu1)).
+  { rewrite Nat.mul_0_l, Nat.add_0_r. exact Hrem4. }
+  assert (Hnd_r : NoDup [r]) by (repeat constructor; auto).
+  assert (Hres := chunks_sim N HN P P' X t p body C l Ht Hp Hbody r [] Hr (fun y (F : In y []) => match F with end)
+                    Hnd_r Hnt2 1%nat eq_refl
+                    q2 0%nat (q * k)%nat q2 s4 s4' mu4 g2 (List.length g1) n o1 mu1 vs4 eq_refl Hc2
+                    Hs4t Ha4 Hg4 Hlen_res Hrem4').
+  assert (Hmb2 : main_body t p body r [] = SAssign p (ERef (EVar t) (EVar r)) :: body).
+  { unfold main_body, copies. cbn. rewrite app_nil_r. reflexivity. }
+  rewrite Hmb2 in Hres.
+  assert (Hlen4 : List.length mu4 = List.length mu) by (apply shape_length; exact Hs4).
+  assert (Erange2 : EvE N P' s4' (mu4 ++ g1) C (ERange3 (EVar m) (EVar nn) (int_lit 1))
+                      (VList (List.length (mu4 ++ g1)), (mu4 ++ g1) ++ [cell2])).
+  { eapply EvE_range3; [apply EvE_var; exact Hs4m | apply EvE_var; exact Hs4n | apply (EvE_int N P' _ _ _ 1) |].
+    replace (Z.of_nat L) with (Z.of_nat (q * k + q2 * 1)) by (unfold q2; f_equal; lia).
+    apply (range_list_cell (q * k) 1 q2). lia. }
+  assert (Hlen1 : List.length (mu4 ++ g1) = (List.length mu4 + List.length g1)%nat) by apply app_length.
+  assert (Hst2 : (mu4 ++ g1) ++ [cell2] = mu4 ++ g2) by (unfold g2; rewrite app_assoc; reflexivity).
+  assert (Hal2 : as_list ((mu4 ++ g1) ++ [cell2]) (VList (List.length (mu4 ++ g1))) = ROk (List.length (mu4 ++ g1), cell2)).
+  { cbn [as_list]. unfold store_get. rewrite nth_error_app2 by lia. rewrite Nat.sub_diag. reflexivity. }
+  assert (Emain : EvS N P' s3' (mu ++ g0) C
+                    (SFor (PVar idx) (ERange3 (int_lit 0) (EVar m) (int_lit (Z.of_nat k))) (main_body t p body idx offs))
+                    (ONormal s4', mu4 ++ g1)).
+  { eapply EvS_for; [exact Erange1 | exact Hal1 |]. rewrite Hst1, Hlen0. exact Hf4. }
+  destruct Hres as [(s5 & s5' & mu5 & Hf5 & Ha5 & Hk5 & Hs5 & Hrem5) | (v & -> & Hf5)].
+  2:{ inversion H; subst. exists (OReturn v), g2. split; [|reflexivity].
+      apply EvB_app_ret. eapply EvB_cons; [exact E1|]. eapply EvB_cons; [exact E2|].
+      eapply EvB_cons; [exact Emain|].
+      apply EvB_cons_ret. eapply EvS_for; [exact Erange2 | exact Hal2 |].
+      rewrite Hst2, Hlen1. exact Hf5. }
+  (* the original loop is exhausted *)
+  assert (Hshape5 : shape mu5 = shape mu) by congruence.
+  destruct (shape_get _ _ _ _ Hshape5 Hg) as (vs5 & Hg5 & Hl5).
+  destruct (for_loop_inv N P _ _ _ _ _ _ _ _ _ _ Hrem5) as (vs5' & Hg5' & Hcase).
+  rewrite Hg5 in Hg5'. inversion Hg5'; subst vs5'. clear Hg5'.
+  assert (Hnone : nth_error vs5 (q * k + q2 * 1) = None).
+  { apply nth_error_None. rewrite Hl5. fold L. unfold q2. lia. }
+  rewrite Hnone in Hcase. destruct Hcase as [-> ->].
+  (* the continuation *)
+  destruct (EvB_frame N P P' X rest s5 s5' mu5 g2 C o mu_f Hrest Ha5 (EvB_of N P _ _ _ _ _ _ H))
+    as (o' & Hrest' & Ho & _).
+  exists o', g2. split; [|eapply orel_out; eauto].
+  eapply EvB_app; [|exact Hrest'].
+  eapply EvB_cons; [exact E1|]. eapply EvB_cons; [exact E2|]. eapply EvB_cons; [exact Emain|].
+  eapply EvB_cons; [|apply EvB_nil].
+  eapply EvS_for; [exact Erange2 | exact Hal2 |]. rewrite Hst2, Hlen1. exact Hf5.
+Qed.
+
+End Peel.
